@@ -185,6 +185,9 @@ def atomic_stage(ctx, binary):
     incs = 60 if ctx.thorough else 25
     gs = [["vm", "vm2", "prom", "varz", "json", "gc", "reload"], ["vm", "vm2", "prom", "json"]]
     cases = [{"group": gs[k % len(gs)], "incs": incs} for k in range(ncases)]
+    # two VMs hammering one datum: only totals are logged (no increment may be lost)
+    cases += [{"group": ["vm", "vm2"], "incs": 60000 if ctx.thorough else 15000, "hammer": True}] * (3 if ctx.thorough else 1)
+    ncases = len(cases)
     # same binary; its race reports are not wanted here (the event log synchronises the actors)
     recs = vlib.run_harness(ctx, binary, args=["-mode=atomic"], cases=cases, timeout=1200,
                             env={"GORACE": "halt_on_error=0 exitcode=0 log_path=%s" % os.path.join(ctx.sub("atomic-race-log"), "ignored")})
@@ -199,7 +202,7 @@ def atomic_stage(ctx, binary):
         raise vlib.InfraError("atomicity harness produced %d of %d traces" % (len(traces), ncases))
     out = validate_traces(ctx, traces, "atomic")
     # self-test of the trace specification: a lost increment and a never-existing exported value must be rejected
-    t = [dict(e) for e in traces[0]]
+    t = [dict(e) for e in traces[0]]   # (the first trace is an event-by-event one)
     bad1 = [dict(e, v=e["v"] - 1) if e["ev"] == "final" else e for e in t]
     k = next((j for j, e in enumerate(t) if e["ev"] == "exp.value"), None)
     bad2 = [dict(e, v=e["v"] + 2 * incs + 5) if j == k else e for j, e in enumerate(t)] if k is not None else None
@@ -260,7 +263,7 @@ def run(ctx):
         if d in devs:
             crash_note.setdefault(d, []).append("%s (x%d)" % (p["panic"], p["count"]))
         else:
-            ctx.violation({"panic": p}, "actor %s panicked while running concurrently with the others: %s" % (actor, p["panic"]))
+            ctx.violation({"panic": p}, "actor %s failed (panic or error from the real code) while running concurrently with the others: %s" % (actor, p["panic"]))
     for r in unknown[:5]:
         sides = r["sides"]
         what = "unparsed race report" if not sides else "data race between %s at %s and %s at %s" % (
